@@ -82,6 +82,17 @@ import (
 //@   ensures[descends-into-every-argument] name != "" && !(name == "var" && len(args) != 0) ==> result == exists(i, 0, len(args), HasVar(args[i]))
 //@   loop 1 invariant forall(k, 0, rangeindex + 1, !HasVar(args[k])) && rangeindex < len(args)
 
+// a pending shorthand (one that contained var()) is expanded again once its variables are substituted, and
+// the longhand takes EXACTLY what the expansion assigns it - a value, or the `initial` of an omitted part, or a
+// CSS-wide keyword: var() is a token substitution, `font: var(--f)` means what `font: 12px serif` means. The
+// lookup fails only when the expansion has no entry for the longhand.
+//@ func ExpandValidatePending
+//@   props C08
+//@   modifies anything
+//@   return 2 ensures[the-longhand-as-expanded] result1 == nil && result0 == expanded.property && expanded.name.KnownProp == prop
+//@   loop 1 invariant forall(k, 0, rangeindex + 1, props[k].name.KnownProp != prop) && rangeindex < len(props)
+//@   return 3 ensures[missing-only-when-absent] result1 != nil && forall(k, 0, len(props), props[k].name.KnownProp != prop)
+
 //@ func findVar
 //@   props C08
 //@   modifies nothing
